@@ -93,6 +93,13 @@ def gen_recipe(rng, mb, kind=None):
         for io in ("INPUT", "OUTPUT"):
             if rng.random() < 0.6:
                 cmds.append({"k": "add", "regex": ".*", "operation": io, "cfg": None, "alg": "no_quantize"})
+    elif kind == "mixed" and rng.random() < 0.25:
+        # under ONE regex: a '*' rule that many ops do not support, followed by op-specific rules
+        reg = rx()
+        cmds.append({"k": "add", "regex": reg, "operation": "*", "cfg": UNIFORM[rng.choice(["drq8", "drq4", "wo8", "wo4"])], "alg": "min_max_uniform_quantize"})
+        for _ in range(rng.randint(1, 3)):
+            op = rng.choice([o for o in fr.OPS if o not in ("*", "CUSTOM_OP")])
+            cmds.append({"k": "add", "regex": reg, "operation": op, "cfg": UNIFORM[rng.choice(["a8w8", "a16w8", "a8sw8t"])], "alg": "min_max_uniform_quantize"})
     else:
         for _ in range(rng.randint(1, 5)):
             r = rng.random()
